@@ -12,7 +12,7 @@ for d in /verif/seeded/*/; do
   res=""
   for P in $props; do
     RACE=""; [ "$P" = "C19" ] && RACE="-race"
-    ( cd /verif/sim && go build $RACE -o /verif/.build/simkv-seed . ) || { res="$res $P:buildfail"; continue; }
+    ( cd /verif/sim && go build -tags verif $RACE -o /verif/.build/simkv-seed . ) || { res="$res $P:buildfail"; continue; }
     VERIF_WATCHDOG_S=600 VERIF_DIR=/verif ./.build/simkv-seed check -prop "$P" -tier quick -no-evidence >/tmp/wt/regress.out 2>&1
     rc=$?
     res="$res $P:rc=$rc"
